@@ -197,7 +197,8 @@ Plan gen_conc(u64 seed) {
                 if (r.chance(1, 3)) o.text = shared_text;       // the same text in several workers: same glyphs, same cache lines
             }
             else if (k < 80) { o.kind = "label"; o.a = {0, i64(r.below(64)), i64(r.below(4)) - 1, i64(1 << r.below(3)), 0x0409}; }
-            else if (k < 92) { o.kind = "face_query"; o.a = {0, i64(r.below(9)), i64(r.below(40))}; if (o.a[1] == 7) o.text = sample_cps(r, font, 12); }
+            else if (k < 86) { o.kind = "face_query"; o.a = {0, i64(r.below(9)), i64(r.below(40))}; if (o.a[1] == 7) o.text = sample_cps(r, font, 12); }
+            else if (k < 92) { o.kind = "face_query"; o.a = {0, 10, i64(r.below(64))}; }     // find a feature by its own id (different workers ask for different features)
             else { o.kind = "face_query"; o.a = {0, 8, i64(r.chance(1, 2) ? 0x76696500 : 0)}; }
             o.s = "f" + std::to_string(f);
             p.ops.push_back(o);
